@@ -194,7 +194,7 @@ func TestVerifC16(t *testing.T) {
 	var scs []hx.Scenario
 	secrets := c14strings
 	for i, sec := range secrets {
-		scs = append(scs, hx.Scenario{Name: fmt.Sprintf("secret#%d=%s", i, c14strClass(sec)), Opt: vrt.Options{Bound: 0}, Body: c16body(sec),
+		scs = append(scs, hx.Scenario{Name: fmt.Sprintf("secret#%d=%s", i, c14strClass(sec)), Opt: vrt.Options{Bound: thoroughBound(2)}, Body: c16body(sec),
 			Verdict: func(e *vrt.Exec) {
 				if e.Panic != nil {
 					vrt.Fail("C16|panic", "%s %s", e.Panic.Value, trimStack(e.Panic.Stack))
